@@ -1,4 +1,5 @@
 mod props;
+mod simpipe;
 
 fn main() {
     let props = props::all();
